@@ -210,6 +210,11 @@ func qAtomText(a *qAtom) string {
 		return fmt.Sprintf(`%s:"%s"`, a.K, a.Tok)
 	case "ftime", "ltime":
 		return tm(a.K)
+	case "dur": // the stream lasts at least / less than N hours (stream times are whole hours: thresholds in between)
+		if a.Tok == "ge" {
+			return fmt.Sprintf("ltime:@ftime@+%dm:", a.N*60-30)
+		}
+		return fmt.Sprintf("ltime::@ftime@+%dm", a.N*60-30)
 	case "lin": // field OP const +/- variables of the same stream:  id:7-@id@:   cport:920+@sport@   id::9-@id@
 		expr := fmt.Sprint(a.N)
 		for i, v := range []string{"id", "cport", "sport", "cbytes", "sbytes"} {
